@@ -13,7 +13,7 @@ pub fn def() -> PropDef {
         run,
         shrink: Shrink::Bytes,
         render: render_seq_or_bytes,
-        rule: "every input of the v1 slot / byte / length / UTF-8 universes that satisfies the precondition (first CR followed by at least one byte, or >= 107 CR-free bytes) is parsed through try_from(&[u8]), try_from(&str) (valid UTF-8 only) and HeaderResult::parse (only when the v2 parser's own verdict is terminal, so that the text parser answers); the result must be complete; non-trivial = precondition holds; distinct = hash of the input",
+        rule: "every input of the v1 slot / byte / length / UTF-8 universes that satisfies the precondition (first CR followed by at least one byte, or >= 107 CR-free bytes) is parsed through try_from(&[u8]), try_from(&str) (valid UTF-8 only) and HeaderResult::parse (only when the v2 parser's own verdict is terminal, so that the text parser answers); the result must be complete, and the same success (or an error again) on the same input followed by more bytes (x, CRLF, 0x80, a cut 3-byte character; for text x, CRLF, a 3-byte character); non-trivial = precondition holds; distinct = hash of the input",
         assumptions: &["which terminal error is reported is property C12's business, not checked here"],
     }
 }
@@ -47,6 +47,30 @@ pub fn judge_plain(input: &[u8], acc: &mut Acc) {
         }
         Err(_) => {} // a panic is C03's business
     }
+    // "... because no later byte can change it": the verdict on the closed window is also the verdict on the window
+    // followed by more data, text or not
+    if let Ok(first) = &r {
+        let mut buf = Vec::with_capacity(input.len() + 4);
+        for t in [&b"x"[..], &b"\r\n"[..], &[0x80u8][..], &[0xe2u8, 0x82][..]] {
+            buf.clear();
+            buf.extend_from_slice(input);
+            buf.extend_from_slice(t);
+            let again = v1_bytes(&buf);
+            acc.eval(1);
+            let same = match (first, &again) {
+                (Ok(a), Ok(Ok(b))) => a == b,
+                // which terminal error names an over-long line that also holds a non-text byte may depend on whether a CR
+                // has arrived (HeaderTooLong / InvalidUtf8): the property fixes success-vs-error and the header, not that
+                (Err(_), Ok(Err(_))) => true,
+                (_, Err(_)) => true, // a panic is C03's business
+                _ => false,
+            };
+            if !same {
+                acc.violation_on("later-bytes-change-the-verdict", "v1::Header::try_from(&[u8])", buf.clone(), format!("{:?}", first.as_ref().map(|h| h.header.len())), format!("{:?}", again.as_ref().map(|x| x.as_ref().map(|h| h.header.len()))));
+                break;
+            }
+        }
+    }
     if let Ok(s) = std::str::from_utf8(input) {
         let r = v1_str(s);
         acc.eval(1);
@@ -54,6 +78,24 @@ pub fn judge_plain(input: &[u8], acc: &mut Acc) {
         if let Ok(x) = &r {
             if !x.is_complete() || x.is_incomplete() {
                 acc.violation(&format!("incomplete-after-window-closed:{}", v1s_name(&r)), "v1::Header::try_from(&str)", "a complete result (success or terminal error)".into(), format!("{:?}", x.as_ref().map(|h| h.header.len())));
+            }
+            let mut buf = String::with_capacity(s.len() + 4);
+            for t in ["x", "\r\n", "\u{20ac}"] {
+                buf.clear();
+                buf.push_str(s);
+                buf.push_str(t);
+                let again = v1_str(&buf);
+                acc.eval(1);
+                let same = match (x, &again) {
+                    (Ok(a), Ok(Ok(b))) => a == b,
+                    (Err(_), Ok(Err(_))) => true,
+                    (_, Err(_)) => true,
+                    _ => false,
+                };
+                if !same {
+                    acc.violation_on("later-bytes-change-the-verdict", "v1::Header::try_from(&str)", buf.as_bytes().to_vec(), format!("{:?}", x.as_ref().map(|h| h.header.len())), format!("{:?}", again.as_ref().map(|y| y.as_ref().map(|h| h.header.len()))));
+                    break;
+                }
             }
         }
     }
